@@ -55,8 +55,8 @@ impl Entry {
             AggVerify { .. } => vec!["pk_pos", "sig_id", "sig_rest", "all_pk"],
             MultiAccum => vec!["key_cancels", "sig_cancels"],
             PopVerify => vec!["pop", "pk"],
-            Pok => vec!["u", "v", "pk", "y", "u_cancels"],
-            PokTs => vec!["u", "v", "pk"],
+            Pok => vec!["u", "v", "pk", "y", "u_cancels", "u_forged"],
+            PokTs => vec!["u", "v", "pk", "u_forged"],
             ScValid | ScDecrypt | ScKeyDecrypt | ScDecryptShares => vec!["u", "w"],
             ScShareVerify => vec!["share", "pks", "w", "u"],
             TlDecrypt => vec!["sig", "u"],
@@ -226,6 +226,13 @@ impl<C: Suite> Model for M04<C> {
             if st.e == Entry::Pok && arg == "u" && st.ids.iter().any(|x| x == "u_cancels") {
                 continue;
             }
+            // "u_forged": commitment = identity together with the proof value v = -(sig * y) that makes the equation hold
+            if arg == "u_forged" && !st.ids.is_empty() {
+                continue;
+            }
+            if st.ids.iter().any(|x| x == "u_forged") {
+                continue;
+            }
             // the three zero encodings are alternatives, not combinable
             if ["zero", "r", "2r"].contains(&arg) && !st.ids.is_empty() {
                 continue;
@@ -341,6 +348,10 @@ impl<C: Suite> Model for M04<C> {
                     if is("y") {
                         yv = zero;
                     }
+                    if is("u_forged") {
+                        u = id_s;
+                        v = -(*sig.as_raw_value() * yv);
+                    }
                     if is("u_cancels") {
                         // u = -H(m)*y makes e(v,g) * e(u + H(m) y, pk) trivially 1 when v is the identity
                         let dst: &[u8] = match s {
@@ -370,6 +381,10 @@ impl<C: Suite> Model for M04<C> {
                     }
                     if is("v") {
                         v = id_s;
+                    }
+                    if is("u_forged") {
+                        u = id_s;
+                        v = -(*sig.as_raw_value() * <C as BlsSignatureProof>::compute_y(id_s, p.timestamp));
                     }
                     p.proof = match s {
                         Scheme::Basic => ProofOfKnowledge::<C>::Basic { u, v },
@@ -547,6 +562,7 @@ impl<C: Suite> Model for M04<C> {
                 AggVerify { .. } if is("sig_rest") || (is("all_pk") && is("sig_id")) => true,
                 MultiAccum if is("key_cancels") && is("sig_cancels") => true,
                 Pok if is("v") && (is("pk") || is("u_cancels")) => true,
+                Pok | PokTs if is("u_forged") => true,
                 ScValid | ScDecrypt | ScKeyDecrypt | ScDecryptShares if is("u") && is("w") => true,
                 _ => false,
             };
